@@ -216,6 +216,9 @@ def instrumented_fix(oFile, rl, ci, fix_phase=7, skip_phase=None, fix_only=None,
                         "new": snap(ot.get_tokens(), ci, ser),
                         "action": repr(v.get_action())[:200],
                         "action_data": jsonable_action(v.get_action(), ci) if harvest else None,
+                        # indent level of every OLD token of interest (token state outside the wire form; the
+                        # indent family's `_fix_violation` reads it): st.before holds the token objects
+                        "old_indents": ([getattr(o, "indent", None) for o, _ in st.before[ot.iStartIndex : ot.iEndIndex]] if harvest and st.before is not None and isinstance(ot.iStartIndex, int) and isinstance(ot.iEndIndex, int) else None),
                         "solution": v.get_solution(),
                     }
                 )
